@@ -833,11 +833,12 @@ class Container:
             transfer = Unit.convert_from_storage(ratio * source_container.volume, 'L')
             transfer, unit = Unit.get_human_readable_unit(transfer, 'L')
         else:
-            # total mass in source container times ratio
+            # total mass that arrived in the destination container
             mass = sum(Unit.convert(substance,
-                                    f"{amount} {config.moles_storage_unit if not substance.is_enzyme() else 'U'}",
-                                    "mg") for substance, amount in source_container.contents.items())
-            transfer, unit = Unit.get_human_readable_unit(mass * ratio, 'mg')
+                                    f"{to.contents[substance] - self.contents.get(substance, 0)} "
+                                    f"{config.moles_storage_unit if not substance.is_enzyme() else 'U'}",
+                                    "g") for substance in source_container.contents)
+            transfer, unit = Unit.get_human_readable_unit(mass, 'g')
         precision = config.precisions[unit] if unit in config.precisions else config.precisions['default']
         to.instructions += f"\nTransfer {round(transfer, precision)} {unit} of {source_container.name} to {to.name}"
         to.volume = 0
